@@ -31,9 +31,9 @@ type Worker struct {
 }
 
 type Waiter struct {
-	StartAfter  int `json:"start_after"`  // started after that many workers were released
-	CancelAfter int `json:"cancel_after"` // context cancelled after that many were released (-1: never)
-	Via         string `json:"via"`        // wait | operation | worker
+	StartAfter  int    `json:"start_after"`  // started after that many workers were released
+	CancelAfter int    `json:"cancel_after"` // context cancelled after that many were released (-1: never)
+	Via         string `json:"via"`          // wait | operation | worker
 }
 
 type Round struct {
@@ -424,5 +424,101 @@ func TestWaitCancelInParkWindow(t *testing.T) {
 			vkit.Fail(t, tHook, "C14:park-window", *c, "%s", why)
 		}
 		vkit.Case(tHook, vkit.Hash(*c), true, nil, func() any { return *c })
+	})
+}
+
+// ---------------------------------------------------------------------
+// reuse while waiters are parked: the counter touches zero and is raised
+// again at once (Done immediately followed by Add), possibly several
+// times, with no new Wait call in between.  A parked waiter may return at
+// any of those zero crossings or stay parked; once the counter has reached
+// zero for good every one of them must have returned.
+
+const tReuse = "TestWaitGroupReuse"
+
+type reuseCase struct {
+	Waiters int   `json:"waiters"`
+	Start   int   `json:"start"`  // initial counter
+	Flips   []int `json:"flips"`  // per zero crossing: yield pattern between the Done and the Add
+	Yields  []int `json:"yields"` // before each crossing
+	Procs   int   `json:"gomaxprocs"`
+}
+
+func runReuse(c *reuseCase) (string, string) {
+	if c.Procs > 0 {
+		old := runtime.GOMAXPROCS(c.Procs)
+		defer runtime.GOMAXPROCS(old)
+	}
+	limit := vkit.Limit()
+	wg := &fun.WaitGroup{}
+	wg.Add(c.Start)
+	var wwg sync.WaitGroup
+	ctx, cancel := context.WithCancel(context.Background())
+	defer cancel()
+	var returned atomic.Int64
+	base := vkit.CountWhere("sync.(*Cond).Wait", "fun.(*WaitGroup).Wait")
+	for i := 0; i < c.Waiters; i++ {
+		wwg.Add(1)
+		go func() { defer wwg.Done(); wg.Wait(ctx); returned.Add(1) }()
+	}
+	vkit.Eventually(100*time.Millisecond, func() bool {
+		return vkit.CountWhere("sync.(*Cond).Wait", "fun.(*WaitGroup).Wait")-base >= c.Waiters
+	})
+	for i := 1; i < c.Start; i++ {
+		wg.Done()
+	}
+	for k, gap := range c.Flips {
+		vkit.Yield(c.Yields[k%len(c.Yields)])
+		wg.Done() // zero ...
+		vkit.Yield(gap)
+		wg.Add(1) // ... and up again
+	}
+	wg.Done() // zero for good
+	done := make(chan struct{})
+	go func() { wwg.Wait(); close(done) }()
+	select {
+	case <-done:
+	case <-time.After(limit):
+		n := returned.Load()
+		cancel()
+		<-done
+		return "blocked-after-reuse", fmt.Sprintf("%d of %d waiters are still blocked %v after the counter reached zero for good (Num()=%d); they were parked while the counter crossed zero %d times", int64(c.Waiters)-n, c.Waiters, limit, wg.Num(), len(c.Flips))
+	}
+	if n := wg.Num(); n != 0 {
+		return "num", fmt.Sprintf("Num()=%d at the end of the reuse script", n)
+	}
+	return "", ""
+}
+
+func TestWaitGroupReuse(t *testing.T) {
+	var rc reuseCase
+	if ok, err := vkit.ReplayCase(tReuse, &rc); err != nil {
+		t.Fatal(err)
+	} else if ok {
+		for i := 0; i < 200; i++ {
+			if k, why := runReuse(&rc); why != "" {
+				vkit.Fail(t, tReuse, "C14:"+k, rc, "%s (repetition %d)", why, i)
+			}
+		}
+		return
+	}
+	reps := vkit.Pick(10, 30)
+	rapid.Check(t, func(t *rapid.T) {
+		if vkit.AlreadyFailed(tReuse) {
+			return
+		}
+		c := &reuseCase{
+			Waiters: rapid.IntRange(1, 4).Draw(t, "waiters"),
+			Start:   rapid.IntRange(1, 3).Draw(t, "start"),
+			Flips:   rapid.SliceOfN(rapid.SampledFrom([]int{0, 0, 0, 1, 2, 4}), 1, 4).Draw(t, "flips"),
+			Yields:  rapid.SliceOfN(rapid.IntRange(0, 4), 1, 3).Draw(t, "yields"),
+			Procs:   rapid.SampledFrom([]int{1, 2, 4, 16}).Draw(t, "gomaxprocs"),
+		}
+		for i := 0; i < reps; i++ {
+			if k, why := runReuse(c); why != "" {
+				vkit.Fail(t, tReuse, "C14:"+k, *c, "%s (repetition %d)", why, i)
+			}
+		}
+		vkit.CaseN(tReuse, vkit.Hash(*c), reps, true, []string{fmt.Sprintf("waiters:%d", c.Waiters), fmt.Sprintf("crossings:%d", len(c.Flips))}, func() any { return *c })
 	})
 }
